@@ -100,6 +100,7 @@ def run(ck, F, tier):
     ck.rule("T3", "addresses() rows equal the pinned reference as sorted sets")
     ck.rule("T4", "Code::h writes exactly the quasi-cyclic information part and the dual-diagonal parity part (symbolic normal form of every insert)")
     ck.rule("T5", "positions written in the parity part == positions accepted by is_staircase (reader/writer agreement)")
+    ck.rule("T7", "the user-facing identifier (rate string, short flag) selects the Code variant of the same name: one row per variant, anything else rejected")
     ck.rule("T6", "(thorough) no two information columns / parity columns share two rows under the law of T4 (no 4-cycle), on the source constants")
     ck.assume("the standard's tables as transcribed in the rule (n, k_ldpc, q for 21 codes; degree profiles of the 11 normal codes)")
     ck.assume("T3 reference is the table content of the pinned commit (tree reference), confirmed only structurally (T2)")
@@ -256,6 +257,8 @@ def run(ck, F, tier):
     kb = const_sym(F)
     ck.inst("T5", "k=n-m", kb, sites["k"], "k() is defined as n() - m(), so column k is the first parity column of new(m, n)")
 
+    from .c20 import cli_dvbs2_table
+    cli_dvbs2_table(ck, F, "T7")
     if tier == "thorough":
         t6(ck, tables, scal, sites)
 
